@@ -598,3 +598,125 @@ def structures(draw, max_res=40, min_res=2, allow_ball=True, allow_hetero=True, 
     if draw(st.sampled_from([True, False])):
         entries.append("END\n")
     return Structure(entries, labels, info)
+
+
+# ---- buried host structures with threaded clusters of ionizable residues (C15 / C16 / C02) -----------------------------
+
+PAIR_POOLS = {
+    "acid-acid": (["ASP", "GLU"], ["ASP", "GLU"]),
+    "base-base": (["LYS", "ARG", "HIS"], ["LYS", "ARG", "HIS"]),
+    "his-his": (["HIS"], ["HIS"]),
+    "cys-cys": (["CYS"], ["CYS"]),
+    "cys-his": (["CYS"], ["HIS"]),
+    "acid-base": (["ASP", "GLU", "TYR", "CYS"], ["LYS", "ARG", "HIS"]),
+    "acid-his": (["ASP", "GLU"], ["HIS"]),
+    "tyr-any": (["TYR"], ["ASP", "GLU", "HIS", "LYS", "ARG", "CYS", "TYR"]),
+    "any": (list(IONIZABLE), list(IONIZABLE)),
+}
+
+
+def _host(name):
+    key = "host:" + name
+    if key in _cache:
+        return _cache[key]
+    chains = protein_chains(name)
+    ress = [(ci, ri) for ci, (c, rs) in enumerate(chains) for ri in range(len(rs))]
+    heavy = [a for c, rs in chains for r in rs for a in r] + [a for r in hetero_residues(name) for a in r]
+    grid = Grid(heavy, cell=15000)
+    info = []
+    for ci, ri in ress:
+        res = chains[ci][1][ri]
+        ca = next((a for a in res if a.aname == "CA"), res[0])
+        burial = len(grid.near(ca, 15000))
+        info.append((burial, ci, ri, ca))
+    _cache[key] = (chains, info)
+    return _cache[key]
+
+
+@st.composite
+def buried_structures(draw, whole=True, pair_kind=None, with_hetero=True):
+    """A corpus protein (whole, so that burial counts are realistic) in which a cluster of 2-4 residues around a
+    buried position is replaced by drawn ionizable types (library rotamers, no clash with other residues)."""
+    name = draw(st.sampled_from(PROTEINS))
+    chains, info = _host(name)
+    ranked = sorted(info, key=lambda t: -t[0])
+    top = ranked[:max(5, len(ranked) * 2 // 5)]
+    burial, ci, ri, ca = top[draw(st.integers(0, len(top) - 1))]
+    kind = pair_kind or draw(st.sampled_from(sorted(PAIR_POOLS)))
+    pool_a, pool_b = PAIR_POOLS[kind]
+    # partners: residues whose CA lies 3.5-9 A from the centre CA
+    near = [(b, cj, rj, c2) for (b, cj, rj, c2) in info if (cj, rj) != (ci, ri)
+            and 3500 ** 2 < pdbio.sq_dist(ca, c2) < 9000 ** 2]
+    new_chains = [[[a.copy() for a in r] for r in rs] for c, rs in chains]
+    targets = [(ci, ri, draw(st.sampled_from(pool_a)))]
+    npart = draw(st.integers(1, 3))
+    for _ in range(min(npart, len(near))):
+        b, cj, rj, c2 = near[draw(st.integers(0, len(near) - 1))]
+        if any((cj, rj) == (x, y) for x, y, _t in targets):
+            continue
+        targets.append((cj, rj, draw(st.sampled_from(pool_b))))
+    done = []
+    for (cj, rj, t) in targets:
+        res = new_chains[cj][rj]
+        if res[0].resn not in HEAVY_COUNT:
+            continue
+        grid = Grid([a for rs in new_chains for r in rs for a in r])
+        own = set(id(a) for a in res)
+        rot0 = draw(st.integers(0, 60))
+        for attempt in range(6):
+            cand = mutate_residue(res, t, rot0 + attempt)
+            if cand is None:
+                break
+            side = [a for a in cand if a.aname not in pdbio.BACKBONE and a.aname not in pdbio.TERMINAL_O]
+            if not any(id(b) not in own for a in side for b in grid.near(a, 2150)):
+                new_chains[cj][rj] = cand
+                done.append("%s%d%s" % (t, res[0].resnum, res[0].chain))
+                break
+    entries = []
+    for rs in new_chains:
+        for r in rs:
+            entries.extend(r)
+        entries.append(ter_line(rs[-1][-1]))
+    labels = ["src:" + name, "cluster:" + kind, "buried-host"]
+    if with_hetero and draw(st.integers(0, 2)) == 0:
+        # a library ion or ligand next to the cluster, where it fits
+        if draw(st.booleans()):
+            resn = draw(st.sampled_from(sorted(IONS)))
+            mol, kindl = [(IONS[resn], 0, 0, 0)], "ion:" + resn
+        else:
+            key = draw(st.sampled_from(sorted(LIGANDS)))
+            resn, mol, kindl = LIGANDS[key]["resn"], LIGANDS[key]["atoms"], "lig:" + key
+        grid = Grid([a for a in entries if isinstance(a, Atom)])
+        cj, rj, _t = targets[draw(st.integers(0, len(targets) - 1))]
+        anchor = new_chains[cj][rj][-1]
+        rot = pdbio.ROTATIONS[draw(st.integers(0, 23))]
+        d0 = draw(st.integers(0, len(DIRECTIONS) - 1))
+        placed = None
+        for dist in (3000, 3600, 4500, 6000):
+            for k in range(len(DIRECTIONS)):
+                d = DIRECTIONS[(d0 + k) % len(DIRECTIONS)]
+                nrm = math.sqrt(_dot(d, d))
+                origin = tuple(int(p + c * dist / nrm) for p, c in zip(anchor.xyz, d))
+                cand = hetero_residue(resn, mol, "L", 950, rot, origin)
+                if not any(grid.near(a, 2600) for a in cand):
+                    placed = cand
+                    break
+            if placed:
+                break
+        if placed:
+            entries.extend(placed)
+            labels.append(kindl)
+    if with_hetero:
+        het = hetero_residues(name)
+        if het and draw(st.booleans()):
+            for r in het:
+                entries.extend(a.copy() for a in r)
+            labels.append("corpus-hetero")
+    seen = set()
+    for a in entries:
+        if isinstance(a, Atom):
+            while a.xyz in seen:
+                a.x += 1
+            seen.add(a.xyz)
+    pdbio.renumber_serials(entries)
+    return Structure(entries, labels, {"protein": name, "mutated": done, "centre_burial": burial})
